@@ -712,6 +712,35 @@ def diagnose(rx, p, flags, ver, mode, s, want):
     return '%s/%s/structure/%s%s' % (mode, verb, feat, tail)
 
 
+def repeated_nested_groups(rx):
+    """capturing groups that have an enclosing capturing group and lie inside a repetition (max > 1): after the last
+    iteration such a group may keep a capture from an EARLIER iteration, outside the final span of its parent; what
+    fn:replace and fn:analyze-string report for it is not determined by F&O (and not comparable between them)"""
+    out = set()
+
+    def walk(node, in_rep, has_parent):
+        if not isinstance(node, tuple) or not node:
+            return
+        tag = node[0]
+        if tag == 'rep':
+            hi = node[3]
+            walk(node[1], in_rep or hi is None or hi > 1, has_parent)
+        elif tag == 'group':
+            idx = node[1]
+            if idx is not None and in_rep and has_parent:
+                out.add(idx)
+            walk(node[2], in_rep, has_parent or idx is not None)
+        else:
+            for ch in node[1:]:
+                if isinstance(ch, tuple):
+                    walk(ch, in_rep, has_parent)
+                elif isinstance(ch, list):
+                    for c2 in ch:
+                        walk(c2, in_rep, has_parent)
+    walk(rx.root, False, False)
+    return out
+
+
 def x_reason(p, flags):
     """under flag x: which of the two x-flag mechanisms can explain a disagreement, if any"""
     if 'x' not in flags or 'q' in flags:
@@ -1032,10 +1061,17 @@ def check_functions(case, out):
             cap = unwrap(rc[1])
             cap = '' if cap == [] else cap
             if n in found:
+                if found[n] != cap and '\\' in text and found[n].replace('\\', '') == cap.replace('\\', ''):
+                    # fn:replace un-escapes backslashes of the INPUT text (listed finding), analyze-string is right
+                    out.fail('C12/functions/replace/unescaping-applied-to-input-text',
+                             dict(ctx, match=text, group=n, analyze_string=found[n], replace=cap))
+                    break
                 if found[n] != cap:
                     out.fail('C12/functions/analyze-string-group-vs-replace',
                              dict(ctx, match=text, group=n, analyze_string=found[n], replace=cap))
                     break
+            elif cap != '' and n in repeated_nested_groups(rx):
+                out.dim('undecided', 'stale-capture-of-a-group-inside-a-repeated-group')
             elif cap != '':
                 # under the x flag the listed x-flag mechanisms change which groups the engine's pattern has
                 out.fail('C12/' + (x_reason(p, flags) or 'functions/analyze-string-group-missing'),
